@@ -859,6 +859,19 @@ func (s *Service) runPipeline(ctx context.Context, rp *runnablePipeline) error {
 				e.Str(log.NodeIDField, node.ID()).Msg("node stopped")
 			}()
 			defer nodesWg.Done()
+			defer func() {
+				if errOut != nil {
+					// Record the failure in the tomb BEFORE nodesWg.Done above
+					// runs: the tomb itself only registers the returned error
+					// after this function returned, i.e. after Done. The
+					// cleanup goroutine reads rp.t.Err() as soon as the last
+					// node called Done, and if the other nodes already
+					// finished (a failing source closes its channel, the rest
+					// drains and exits) it would still see ErrStillAlive and
+					// classify a failed run as a graceful stop.
+					rp.t.Kill(errOut)
+				}
+			}()
 
 			err := node.Run(ctx)
 			if cerrors.Is(err, pipeline.ErrGracefulShutdown) {
